@@ -9,7 +9,7 @@ RULE = ('distinct = distinct abstract design (hash of the AD); non-trivial = at 
 
 def run(rep, tier, seed):
     failed = _pv.run_suite(rep, PID, 'uniq', tier)
-    rep.explanation = ('helper level (P): uniquify._is_unique(instance) is True exactly when the instance\'s definition is instantiated once (cardinality of its reference set) or is a leaf '
+    rep.explanation = ('helper level (P): uniquify._is_unique(instance) (and the public Instance.is_unique(), same specification) is True exactly when the instance\'s definition is instantiated once (cardinality of its reference set) or is a leaf '
                        '(no children, no cables), writes nothing and does not raise, for all heaps satisfying Inv -- the test that decides which instances the work-list leaves alone; '
                        '_make_instance_unique and the work-list itself: bounded stand-in: sole-reference of every reachable non-leaf instance, independent elaboration before/after, Inv, fresh names AND fresh '
                        'EDIF identifiers (ignoring case) in the original library, idempotence; designs are also rebuilt through construction histories that '
